@@ -243,6 +243,8 @@ def main(prop, argv=None):
     pid = prop.ID
     ctx = Ctx(pid, tier, seed)
     sys.path.insert(0, REPO)
+    import warnings
+    warnings.filterwarnings('ignore')
     os.environ.setdefault('PYTHONDONTWRITEBYTECODE', '1')
     sys.dont_write_bytecode = True
     try:
